@@ -247,10 +247,15 @@ def replay(case):
     i = cfg["point"]
     phi = Phi[:, i]
     E_ref = (np.conj(p.ket) @ H @ phi) / (np.conj(p.ket) @ phi)
+    # history: the explorer rebuilds intermediates on the dictionary of the previous build; replay that too by
+    # preparing the dictionary for a decoy Hamiltonian first (stale-cache defects are history dependent)
+    dh0, dh1, dchol = al.small_ham(n, len(chol), seed + 17, spin_dependent=False, scale=0.7)
+    gridmc.build_ham_data(n, dh0, dh1, dchol, trial, p.wave_data)
     hd = gridmc.build_ham_data(n, h0, h1, chol, trial, p.wave_data)
     sl = slice(i, i + 1)
     if cfg.get("entry") in ("batched", "eager"):  # batch-order defects only show on the whole batch
         tr = gridmc.with_batch(trial, cfg.get("n_batch", 1))
+        gridmc.build_ham_data(n, dh0, dh1, dchol, tr, p.wave_data)
         hd = gridmc.build_ham_data(n, h0, h1, chol, tr, p.wave_data)
         E = eval_energy(tr, p.wave_data, hd, mode, cfg["entry"], Wa, Wb, na, nb)[i]
     else:
